@@ -212,13 +212,13 @@ int ldb_tablegen_finish(ldb_tablegen_t *tb) {
   __CPROVER_assert(tb == &g_builder_obj && g_b_live && g_b_state == 0 && !g_held, "finish of the open builder, mutex released");
   __CPROVER_assert(g_in_err == LDB_OK, "D4: a table is finished only while the input iterator reports no error");
   __CPROVER_assume(inc < (1ull << 20));
-  g_b_state = 1; g_b_size += inc; g_o_entries[g_b_out] = g_b_entries;
+  g_b_state = 1; g_b_size += inc; g_o_entries[g_b_out] = g_b_entries; g_o_size[g_b_out] = g_b_size;
   g_o_fin[g_b_out] = (rc == LDB_OK) ? 1 : 2;
   return rc;
 }
 void ldb_tablegen_abandon(ldb_tablegen_t *tb) {
   __CPROVER_assert(tb == &g_builder_obj && g_b_live && g_b_state == 0, "abandon of the open builder");
-  g_b_state = 2; g_o_fin[g_b_out] = 3;
+  g_b_state = 2; g_o_fin[g_b_out] = 3; g_o_size[g_b_out] = g_b_size;
 }
 void ldb_tablegen_destroy(ldb_tablegen_t *tb) {
   __CPROVER_assert(tb == &g_builder_obj && g_b_live && g_b_state != 0, "a builder is destroyed only after finish or abandon");
@@ -357,14 +357,14 @@ static ldb_t *setup_db(void) {
   g_versions.last_sequence = nondet_u64();
   /* sequence numbers are 56 bit; LDB_MAX_SEQUENCE itself is the "no previous entry" sentinel and never assigned */
   __CPROVER_assume(g_versions.last_sequence < LDB_MAX_SEQUENCE - (1ull << 41));
-  for (l = 0; l < LDB_NUM_LEVELS; l++)
-    __CPROVER_assume(db->stats[l].micros >= 0 && db->stats[l].micros < (1ll << 50) && db->stats[l].bytes_read >= 0 && db->stats[l].bytes_read < (1ll << 50) && db->stats[l].bytes_written >= 0 && db->stats[l].bytes_written < (1ll << 50));
+  l = nondet_int(); __CPROVER_assume(l >= 0 && l < LDB_NUM_LEVELS - 1); g_c.level = l;
+  l++;   /* statistics counters of the output level are far from overflow */
+  __CPROVER_assume(db->stats[l].micros >= 0 && db->stats[l].micros < (1ll << 50) && db->stats[l].bytes_read >= 0 && db->stats[l].bytes_read < (1ll << 50) && db->stats[l].bytes_written >= 0 && db->stats[l].bytes_written < (1ll << 50));
   return db;
 }
 static ldb_filemeta_t g_in_files[4];
 static void setup_compaction(void) {
   size_t n0 = nondet_size(), n1 = nondet_size(), i;
-  g_c.level = nondet_int(); __CPROVER_assume(g_c.level >= 0 && g_c.level < LDB_NUM_LEVELS - 1);
   g_c.max_output_file_size = nondet_u64();
   g_c.input_version = &g_iv_obj;
   __CPROVER_assume(n0 >= 1 && n0 <= 2 && n1 <= 2);
@@ -443,27 +443,27 @@ void h_work(void) {
   CHECK(g_viter_live == 0, "verification iterators are released");
 
   /* ---- the drop rule (C01 K6, C06 S3) ---- */
-  ASSUME(in_k >= 0 && (size_t)in_k < g_n);
-  CHECK(g_added[in_k] <= 1, "an input entry is written at most once");
-  CHECK(g_import_calls[in_k] <= 1 && g_stop_calls[in_k] == g_import_calls[in_k], "every entry examined is shown to should_stop_before exactly once (it keeps grandparent-overlap state)");
-  if (g_added[in_k]) CHECK(!spec_drop(in_k), "DROP RULE: an entry that the rule omits is not written");
-  if (rc == LDB_OK) {
-    CHECK(g_import_calls[in_k] == 1, "compaction OK: every input entry was examined");
-    CHECK(g_added[in_k] == (spec_drop(in_k) ? 0 : 1), "DROP RULE: an entry is omitted iff it is shadowed by an earlier entry of the same user key with sequence <= smallest_snapshot, or is a tombstone with sequence <= smallest_snapshot at its base level; unparsable keys are kept");
-  }
-  if (g_import_calls[in_k] && !e_parse[in_k] && rc == LDB_OK) CHECK(g_added[in_k] == 1, "an unparsable key is never dropped");
-  /* consequence for a snapshot S >= smallest_snapshot (every live or future snapshot): the entry it reads survives */
-  ASSUME(in_S >= g_ss);
-  {
-    int newest = e_parse[in_k] && e_seq[in_k] <= in_S, j;
-    for (j = 0; j < NMAX; j++) if (j < in_k && e_parse[j] && e_uid[j] == e_uid[in_k] && e_seq[j] <= in_S) newest = 0;
-    if (newest && rc == LDB_OK)
-      CHECK(g_added[in_k] == 1 || (e_type[in_k] == LDB_TYPE_DELETION && e_seq[in_k] <= g_ss && e_base[in_k]),
-            "S3: for every snapshot S >= smallest_snapshot the newest entry with sequence <= S of a user key is kept, unless it is a tombstone that no deeper level can contradict");
+  if (in_k >= 0 && (size_t)in_k < g_n) {
+    CHECK(g_added[in_k] <= 1, "an input entry is written at most once");
+    CHECK(g_stop_calls[in_k] <= 1 && g_import_calls[in_k] <= g_stop_calls[in_k], "every entry examined was first shown to should_stop_before, exactly once (it keeps grandparent-overlap state)");
+    CHECK(g_added[in_k] <= g_import_calls[in_k], "only examined entries are written");
+    if (g_added[in_k]) CHECK(!spec_drop(in_k), "DROP RULE: an entry that the rule omits is not written");
+    if (rc == LDB_OK) {
+      CHECK(g_import_calls[in_k] == 1, "compaction OK: every input entry was examined");
+      CHECK(g_added[in_k] == (spec_drop(in_k) ? 0 : 1), "DROP RULE: an entry is omitted iff it is shadowed by an earlier entry of the same user key with sequence <= smallest_snapshot, or is a tombstone with sequence <= smallest_snapshot at its base level; unparsable keys are kept");
+      if (!e_parse[in_k]) CHECK(g_added[in_k] == 1, "an unparsable key is never dropped");
+    }
+    /* consequence for a snapshot S >= smallest_snapshot (every live or future snapshot): the entry it reads survives */
+    if (in_S >= g_ss) {
+      int newest = e_parse[in_k] && e_seq[in_k] <= in_S, j;
+      for (j = 0; j < NMAX; j++) if (j < in_k && e_parse[j] && e_uid[j] == e_uid[in_k] && e_seq[j] <= in_S) newest = 0;
+      if (newest && rc == LDB_OK)
+        CHECK(g_added[in_k] == 1 || (e_type[in_k] == LDB_TYPE_DELETION && e_seq[in_k] <= g_ss && e_base[in_k]),
+              "S3: for every snapshot S >= smallest_snapshot the newest entry with sequence <= S of a user key is kept, unless it is a tombstone that no deeper level can contradict");
+    }
   }
   /* ---- order and output files (C14) ---- */
-  ASSUME(in_p >= 0 && in_p < in_q && (size_t)in_q < g_n);
-  if (g_added[in_p] && g_added[in_q]) {
+  if (in_p >= 0 && in_p < in_q && (size_t)in_q < g_n && g_added[in_p] && g_added[in_q]) {
     int between_stop = 0, between_added = 0, j;
     CHECK(g_add_ord[in_p] < g_add_ord[in_q] && g_add_out[in_p] <= g_add_out[in_q], "entries are written in input order, outputs are filled in creation order");
     for (j = 0; j < NMAX; j++) { if (j > in_p && j <= in_q && e_stop[j]) between_stop = 1; if (j > in_p && j < in_q && g_added[j]) between_added = 1; }
@@ -471,8 +471,7 @@ void h_work(void) {
       CHECK((g_add_out[in_p] == g_add_out[in_q]) == (!between_stop && g_size_after[in_p] < g_c.max_output_file_size),
             "consecutive written entries share an output file unless should_stop_before fired in between or the file reached max_output_file_size");
   }
-  ASSUME(in_o >= 0 && in_o < g_o_count);
-  {
+  if (in_o >= 0 && in_o < g_o_count) {
     ldb_output_t *out = state->outputs.items[in_o];
     CHECK(out == g_o_obj[in_o] && out->number == next0 + (uint64_t)in_o, "outputs carry distinct, freshly allocated file numbers in creation order");
     if (g_o_adds[in_o] > 0) {
@@ -491,9 +490,10 @@ void h_work(void) {
     CHECK(g_apply_in_err == LDB_OK, "C11: nothing is installed when the input iterator reported an error");
     CHECK(g_apply_pos == g_n, "nothing is installed unless the whole input was consumed (a shut-down or failed compaction installs nothing)");
     CHECK(g_apply_indel == 1 && g_apply_af == g_o_count && g_apply_rm == 0, "the edit deletes the inputs and adds exactly the outputs");
-    CHECK(g_af_level[in_o] == g_c.level + 1 && g_af_number[in_o] == g_o_number[in_o] && g_af_size[in_o] == g_o_size[in_o]
-          && g_af_small[in_o] == &g_o_obj[in_o]->smallest && g_af_large[in_o] == &g_o_obj[in_o]->largest,
-          "C14: each output is added at level+1 with its own number, size and key range");
+    if (in_o >= 0 && in_o < g_o_count)
+      CHECK(g_af_level[in_o] == g_c.level + 1 && g_af_number[in_o] == g_o_number[in_o] && g_af_size[in_o] == g_o_size[in_o]
+            && g_af_small[in_o] == &g_o_obj[in_o]->smallest && g_af_large[in_o] == &g_o_obj[in_o]->largest,
+            "C14: each output is added at level+1 with its own number, size and key range");
     CHECK(rc == g_apply_rc, "the result of the MANIFEST write is the result of the compaction");
   } else {
     CHECK(rc != LDB_OK, "compaction OK only if its results were installed");
@@ -614,10 +614,11 @@ void h_install(void) {
   CHECK(g_apply_calls == 1 && rc == g_apply_rc, "install: the edit is applied once, its status is returned");
   CHECK(g_apply_indel == 1 && g_indel_calls == 1, "install: the compaction's input files (both levels) are deleted in the edit, before it is applied");
   CHECK(g_apply_af == (int)in_nout && g_af_calls == (int)in_nout && g_rm_calls == 0, "install: exactly one added file per output, all before the edit is applied");
-  ASSUME(in_o < in_nout);
-  CHECK(g_af_level[in_o] == g_c.level + 1, "C14: outputs are installed at level+1");
-  CHECK(g_af_number[in_o] == g_outs[in_o].number && g_af_size[in_o] == g_outs[in_o].file_size, "install: the file is added with the output's recorded number and size");
-  CHECK(g_af_small[in_o] == &g_outs[in_o].smallest && g_af_large[in_o] == &g_outs[in_o].largest, "install: the file is added with the output's recorded smallest/largest keys");
+  if (in_o < in_nout) {
+    CHECK(g_af_level[in_o] == g_c.level + 1, "C14: outputs are installed at level+1");
+    CHECK(g_af_number[in_o] == g_outs[in_o].number && g_af_size[in_o] == g_outs[in_o].file_size, "install: the file is added with the output's recorded number and size");
+    CHECK(g_af_small[in_o] == &g_outs[in_o].smallest && g_af_large[in_o] == &g_outs[in_o].largest, "install: the file is added with the output's recorded smallest/largest keys");
+  }
   CANARY();
 }
 
@@ -648,9 +649,10 @@ void h_cleanup(void) {
   CHECK(!g_b_live && g_b_destroys == open_builder && (!open_builder || g_b_state == 2), "cleanup: an open builder is abandoned, then destroyed");
   CHECK(!g_f_live && g_f_destroys == open_builder, "cleanup: an open output file object is destroyed");
   CHECK(g_pending_dels == (int)in_nout && g_pending_puts == 0, "G3: one pending_outputs release per output, nothing else");
-  ASSUME(in_o < in_nout);
-  for (j = 0; j < DBC_LMAX; j++) if ((size_t)j < in_nout && g_del_item[j] == g_o_number[in_o]) hits++;
-  CHECK(hits == 1, "G3: every output's number is released from pending_outputs exactly once");
+  if (in_o < in_nout) {
+    for (j = 0; j < DBC_LMAX; j++) if ((size_t)j < in_nout && g_del_item[j] == g_o_number[in_o]) hits++;
+    CHECK(hits == 1, "G3: every output's number is released from pending_outputs exactly once");
+  }
   CHECK(g_state_freed == 1 && g_out_frees == (int)in_nout && g_vec_clears == 1, "cleanup: the state and every output record are freed once");
   CANARY();
 }
